@@ -421,7 +421,8 @@ Proof.
   { destruct (is_monitor st (st_next st)) eqn:E; auto. apply (mons_conn _ I) in E. apply (conns_lt _ I) in E. lia. }
   unfold step. destruct (wf_event st e) eqn:W; simpl; [|right; constructor].
   assert (D : forall c, is_monitor st c = true -> step_items_ok st (snd (disconnect st c))).
-  { intros c Hm. unfold disconnect. rewrite Hm. simpl. right; constructor. }
+  { intros c Hm. unfold disconnect. rewrite Hm. unfold noreply_items. simpl.
+    destruct (monitor_no_pending st c I Hm) as [_ Eo]. rewrite Eo. simpl. right; constructor. }
   destruct e as [priv|c|c m|c s n dnq|c s n|c s f|c s|c s so fl rs]; simpl in W.
   - right. apply connect_good; auto.
   - destruct (is_monitor st c) eqn:Em; [apply D; auto|]. right. apply disconnect_ordinary_good; auto.
@@ -504,15 +505,16 @@ Qed.
 
 (* ---------------------------------------------------------------- "is disconnected if it sends anything" *)
 Theorem send_closes st e x :
-  is_monitor st x = true -> actor e = Some x -> wf_event st e = true ->
+  creachable st -> is_monitor st x = true -> actor e = Some x -> wf_event st e = true ->
   (forall m, wire_msg e = Some m -> peer_local m = false) ->
   closes st e x.
 Proof.
-  intros Hx Ha W Hp. unfold closes.
+  intros R Hx Ha W Hp. unfold closes. pose proof (Inv_creachable st R) as I.
+  destruct (monitor_no_pending st x I Hx) as [Ed Eo].
   assert (D : fst (disconnect st x) = upd st (filter (fun y => negb (y =? x)) (st_conns st)) (st_next st) (st_own st) (st_rules st)
                 (mm_disconnected (st_mrules st) x) (filter (fun y => negb (y =? x)) (st_mons st)) (st_pend st)
               /\ snd (disconnect st x) = []).
-  { unfold disconnect. rewrite Hx. split; reflexivity. }
+  { unfold disconnect. rewrite Hx. unfold noreply_items. simpl. rewrite Ed, Eo. split; reflexivity. }
   assert (S : step st e = disconnect st x).
   { unfold step. rewrite W. simpl.
     destruct e as [|c|c m|c s n dnq|c s n|c s f|c s|c s fs]; simpl in Ha; try discriminate; inversion Ha; subst; auto;
